@@ -9,6 +9,7 @@ claimed={
  'C02': ("Same as C01 for scalars mod N: fiat scalar package, every Scalar method incl. the Invert chain (exponent N-2 literally), IsGreaterThanHalfN, canonical decode leaving the receiver untouched on error.", "Sum/Product over variadic slices are not under contract yet (listed in evidence.coverage.not_covered). "+COMMON),
  'C03': ("addComplete/addMixed/doubleComplete are proved equal to the Renes-Costello-Batina closed forms as polynomials over Z/P under every alias partition; Add/Double/Subtract/Negate/Conditional*/Equal/IsIdentity/IsYOdd/rescale/Set and constructors are proved against the abstract group (padd/pneg/O) with the type invariant isValid => on-curve re-established; panics exactly on uninitialised operands.", "The identification of the closed forms with the group law (completeness) and the projective representation axioms are cited lemmas (spec/curve.spec), not re-proved. "+COMMON),
  'C12': ("The BIP-66 predicate is proved equivalent to the declarative BIP-66 grammar for every byte string (all index computations proved in range); the compact parsers/builders are exact; ParseASN1Signature and ParseASN1PublicKey are proved to accept exactly the strict-DER grammars (spec/wire.spec, engine derspec.go) with 1 <= r,s < N resp. ecPublicKey/secp256k1 OIDs, zero unused bits and a valid non-identity SEC 1 key; the cryptobyte and encoding/asn1 routines they use (ReadASN1, readASN1Bytes, ReadASN1BitString, Empty, RightAlign) are themselves verified against the dependency source; no repo-side index/slice/conversion can panic.", "OBJECT IDENTIFIER decoding/comparison is an assumed contract; the DER builders (BuildASN1Signature, buildASN1PublicKey) and hence the build/parse round-trip identities are not under contract (evidence.coverage.not_covered). One genuine defect was found and fixed (known_findings.json). "+COMMON),
+ 'C04': ("ScalarMult and scalarMultVartimeGLV are proved to return smul(val(s), abs(p)) for every scalar, point and receiver aliasing: mulGFlooredDiv is exact (schoolbook product + rounding), splitGLV satisfies k = k1 + k2*lambda with both halves in (-2^128, 2^128) for every k (LIA lemma), table construction, constant-time and variable-time table selection, and the 16-iteration ladders (unrolled, with cut lemmas) are all discharged.", "The GLV endomorphism lemma (beta, lambda) and the RCB group-law lemmas are cited, not re-proved; the assembly lookup is covered by C19 (this check uses the purego build). "+COMMON),
  'C06': ("SEC 1 decoders accept exactly (length, prefix, canonical coordinates, curve equation / square test, parity) and leave the receiver unchanged on every error path; encoders produce prefix and big-endian affine coordinates of the abstract point; constructors from coordinates apply the same validation.", "RecoverPoint and the encode/decode round-trip lemmas are being added. Square test via Euler criterion lemma (P prime). "+COMMON),
 }
 checks=[]
